@@ -225,3 +225,14 @@ mod tests {
         assert_eq!(limits.outgoing_connections.len(), 1);
     }
 }
+
+#[cfg(litep2p_verif)]
+impl ConnectionLimits {
+    /// Connection ids counted as (incoming, outgoing) (verification hook).
+    pub fn verif_counted(&self) -> (Vec<ConnectionId>, Vec<ConnectionId>) {
+        (
+            self.incoming_connections.iter().copied().collect(),
+            self.outgoing_connections.iter().copied().collect(),
+        )
+    }
+}
